@@ -724,6 +724,11 @@ class ReaderTable:
         seq, ivar, evar = loop_shape(loop, params, inits_before(fn, loop))
         if seq != self.tokp:
             raise Unknown('tie reader iterates over %s, not over its token parameter' % seq)
+        for n_ in ast.walk(fn):
+            if isinstance(n_, (ast.Assign, ast.AugAssign, ast.AnnAssign)):
+                for t_ in (n_.targets if isinstance(n_, ast.Assign) else [n_.target]):
+                    if isinstance(t_, ast.Name) and t_.id == self.tokp:
+                        raise Unknown('the token list %s is re-bound (%s) before it is read: what the loop sees is no longer what the caller passed' % (self.tokp, ast.unparse(n_)[:60]))
         inits = inits_before(fn, loop)
         self.states = [k for k, v in inits.items() if isinstance(v, ast.Constant) and isinstance(v.value, bool)]
         self.counters = [k for k, v in inits.items() if isinstance(v, ast.Constant) and isinstance(v.value, int) and not isinstance(v.value, bool)]
